@@ -1,6 +1,69 @@
 """C01 — round-trip fidelity of every built-in codec, at any nesting."""
+import os
 from .. import common as C
+from .. import gencases as G
 from .. import rtfamily as R
+
+
+def gen_bigdec(rng):
+    """canonical plain-notation decimal text (what BigDecimal::to_string prints for it)"""
+    ip = rng.choice(["0", str(rng.randrange(1, 10)), str(rng.getrandbits(rng.randrange(1, 130)) or 7)])
+    if rng.random() < 0.5:
+        return ("-" if rng.random() < 0.3 and ip != "0" else "") + ip
+    fr = "".join(rng.choice("0123456789") for _ in range(rng.randrange(1, 31)))
+    if ip == "0" and fr.lstrip("0") != fr and len(fr) - len(fr.lstrip("0")) >= 5:
+        fr = "1" + fr          # tiny values print in exponent notation: keep to plain notation
+    neg = rng.random() < 0.3 and (ip != "0" or fr.strip("0") != "")
+    return ("-" if neg else "") + ip + "." + fr
+
+
+def bigdecimal_stream(rep, tier, seed, harness, wd):
+    """BigDecimal is written as the decimal text the bigdecimal crate renders and parsed back by that crate: the
+    text is a third-party function, not modelled; the stream is judged on the implementation alone"""
+    rng = C.rng_for(seed, "C01bd")
+    n = 1500 if tier == "quick" else 40000
+    cases = []
+    for i in range(n):
+        shape = rng.choice(["p", "p", "vec", "opt", "tup", "map"])
+        mk = lambda: "b" + gen_bigdec(rng).encode().hex()
+        if shape == "p":
+            t, v = G.P("bigdec"), mk()
+        elif shape == "vec":
+            t = ("seq", "vec", 0, G.P("bigdec"))
+            v = "(0" + "".join(" " + mk() for _ in range(rng.randrange(0, 5))) + ")"
+        elif shape == "opt":
+            t, v = ("opt", G.P("bigdec")), f"(1 {mk()})"
+        elif shape == "tup":
+            t, v = ("tup", [G.P("u8"), G.P("bigdec"), G.P("str")]), f"(0 n{rng.randrange(256)} {mk()} b6162)"
+        else:
+            t, v = ("map", "bmap", G.P("u16"), G.P("bigdec")), f"(0 (0 n1 {mk()}) (0 n2 {mk()}))"
+        cases.append(R.mk(None, t, v, rng.choice(R.SUFFIXES)))
+    lines = [C.codec_line(c) for c in cases]
+    impl = C._run_codec_side(harness, cases, lines, wd, "bigdec", 16, 3000)
+    bad = []
+    for c, a in zip(cases, impl):
+        ok, why = R.judge_rt(c, a)
+        if not ok:
+            bad.append((c, a, why))
+    rep.coverage["bigdecimal_stream"] = {"cases": len(cases), "failing": len(bad), "judged": "implementation alone (not modelled)",
+                                         "sample": lines[0][:120]}
+    rep.coverage["evaluations"] = rep.coverage.get("evaluations", 0) + len(cases)
+    if bad:
+        c, a, why = bad[0]
+        rep.violation(f"BigDecimal: {why}: {C.codec_line(c)[:160]}",
+                      {"kind": "case", "case": C.codec_line(c), "implementation": a, "why": why, "n_failing": len(bad)})
+
+
+def tz_list_check(rep, harness):
+    """coq/TzNames.v (the model's oracle for Tz::from_str) against the chrono-tz linked into the implementation"""
+    have = C.run([harness, "tznames"], timeout=120).stdout.split()
+    want = G.tz_names()
+    rep.coverage["tz_names"] = {"model": len(want), "implementation": len(have), "equal": have == want}
+    if have != want:
+        diff = sorted(set(have) ^ set(want))[:5]
+        rep.violation("the zone names the implementation's chrono-tz accepts differ from coq/TzNames.v: " + ", ".join(diff),
+                      {"kind": "correspondence", "stream": "tznames", "first_differences": diff,
+                       "regenerate": "see the header of coq/TzNames.v"}, no_input=True)
 
 
 def check(rep, tier, seed):
@@ -10,9 +73,17 @@ def check(rep, tier, seed):
         "every type constructor applied to every modelled primitive (exhaustive shallow layer, every tuple arity "
         "1-8, every compiled array length), random type expressions to depth 5; values from per-primitive boundary "
         "sets (MIN/MAX/var-int width boundaries, NaN payloads, BMP edges, 63/64/65-byte strings, 0/1/63/64/65/130-"
-        "element containers); each encoded and decoded with a suffix through the public entry points "
-        "(dynamic route: the library's generic impls instantiated at a run-time typed value); non-trivial = "
-        "distinct case lines")
+        "element containers; chrono: both ends of the year and timestamp ranges, leap days and leap seconds, every "
+        "var-int width of year / nanosecond / offset, all 596 zone names); each encoded and decoded with a suffix "
+        "through the public entry points (dynamic route: the library's generic impls instantiated at a run-time "
+        "typed value); non-trivial = distinct case lines; BigDecimal: implementation-only stream")
     R.run_and_judge(rep, "C01", "C01", cases, tier, seed,
-                    extra_trusted=["not yet modelled (outside the theorem and the stream): chrono, chrono-tz and "
-                                   "BigDecimal codecs"])
+                    extra_trusted=["chrono's calendar (valid dates/times/offsets/timestamps) and chrono-tz's name table are "
+                                   "oracles written out in coq/Calendar.v and coq/TzNames.v; their agreement with the crates is "
+                                   "sampled by this stream (boundaries of every predicate) and the name list is compared on "
+                                   "every run; DateTime<Local> under TZ=UTC",
+                                   "not modelled: BigDecimal's decimal text (bigdecimal crate); its stream is judged on the "
+                                   "implementation alone"])
+    harness = C.build_harness("release")
+    bigdecimal_stream(rep, tier, seed, harness, C.workdir("C01bd"))
+    tz_list_check(rep, harness)
